@@ -6,7 +6,8 @@ TRANSLATORS = ['parser', 'grammar', 'types', 'xml', 'libs']
 LEVEL = 'proof'
 RULE = ('obj stage: random histories of API calls (parse, tree_to_xml, parse_to_xml, unparse, xml_from_dict with good and broken dicts, '
         'eId rewrites; succeeding or raising: ParseError, illegal characters at chosen depths incl. inside nested attachments, bad dicts) on '
-        'one or several parser objects in random interleavings, followed by a probe conversion compared with the same conversion on a fresh '
+        'one or several parser objects in random interleavings, followed by a probe conversion (parse_to_xml; or through the dict; or in two steps - '
+        'parse, other parses on the same object, tree_to_xml of the first tree on the same or another object) compared with the same conversion on a fresh '
         'object and with the extracted model (e2e stage); a deep snapshot of every mutable object reachable from the four modules and their '
         'classes before/after each history; in thorough, real threads on distinct objects vs the sequential result. non-trivial = history '
         'with at least one raising call and a probe with an attachment or footnote; distinct by history.')
@@ -101,13 +102,19 @@ def run_history(args):
             raised += 1
     after = snapshot()
     root, text = probe
-    via_dict = seed % 3 == 0      # one probe in three converts through the intermediate dict (parse, to_dict, xml_from_dict)
+    via_dict = seed % 4 == 0      # one probe in four converts through the intermediate dict (parse, to_dict, xml_from_dict)
     got = [impl.e2e_with(p, root, text, via_dict) for p in objs]
+    if seed % 4 == 1:
+        # ... and one in four in two steps: parse, then parses of other kinds of root on the same object (a fragment, a document, a failing one),
+        # then tree_to_xml of the first tree - on the same object and on another one
+        between = [('hier_element', 'SEC 2. - Other\n\n  Just a fragment.\n'), ('act', 'SEC 3\n  x\n'), ('hier_element', '{{')]
+        random.Random(seed).shuffle(between)
+        got = [impl.e2e_with(p, root, text, split=(None, between)) for p in objs] + [impl.e2e_with(objs[0], root, text, split=(objs[-1], between[:1]))]
     want = impl.e2e_sx((URI, root, '', text))
     bad = None
     for i, g in enumerate(got):
         if g != want:
-            bad = 'probe%s on object %d differs from a fresh object' % (' (via xml_from_dict)' if via_dict else '', i)
+            bad = 'probe%s on object %d differs from a fresh object' % (' (via xml_from_dict)' if via_dict else ' (parse ... tree_to_xml)' if seed % 4 == 1 else '', i)
     if before != after:
         diff = [a[0] for a, b in zip(before, after) if a != b][:3]
         bad = bad or 'module/class-level state changed: %s' % diff
